@@ -151,6 +151,12 @@ def selection(s0: int, s1: int, s2: int, s3: int, parity: bool, o0: int, o1: int
     hx.begin()
     k, procs = hx.P['k'], hx.P['procs']
     scores = [s0, s1, s2, s3, s4, s5][:k]
+    if 'offsets' in hx.P:
+        # large, nearly tied scores: base + small offsets (ties are exact equality, not "close enough"); the order of the
+        # offsets among the combinations is the solver's (s0 picks a rotation)
+        offs = hx.P['offsets']
+        rot = s0 % k
+        scores = [10 ** 12 + offs[(i + rot) % k] for i in range(k)]
     GM.built = []
     GM.table = {(i, 0): scores[i] for i in range(k)}
     GM.typed = ()
@@ -235,6 +241,53 @@ def step_limit(mx: int) -> bool:
     if got != want or [r.get("x") for r in results] != [0, 1, 2]:
         return hx.end(hx.fail("scores of models that were still running at the step limit", got=got, exp=want, processes=procs, limit=mx))
     return hx.end(best is results[2])
+
+
+class Inner(Model):
+    __slots__ = ['y']
+
+    def __init__(self, y):
+        super().__init__(logger=NULL_LOGGER)
+        self.y = y
+        self.complete()
+
+
+def nested_search(s0: int, s1: int, s2: int, i0: int, i1: int) -> bool:
+    """
+    post: _
+    """
+    # the score function of the outer search tunes an inner parameter with a search of its own (re-entrancy): every outer
+    # combination is still evaluated with the OUTER model class, score function and repetition count
+    hx.begin()
+    procs = hx.P['procs']
+    outer_scores = [s0, s1, s2]
+    inner_scores = {0: i0, 1: i1}
+    calls = []
+
+    def inner_score(model):
+        return inner_scores[model.y]
+
+    def outer_score(model):
+        best_inner, _ = B.grid_search(Inner, {"y": [0, 1]}, inner_score, processes=1, repetitions=1, mode=ScoreMode.MAX)
+        calls.append((model.x, best_inner["score"]))
+        return outer_scores[model.x]
+    GM.built, GM.typed, GM.table = [], (), {}
+    saved = B.Pool
+    B.Pool = FakePool
+    FakePool.order = [0, 1, 0]
+    try:
+        best, results = B.grid_search(GM, {"x": [0, 1, 2]}, outer_score, processes=procs, repetitions=2, mode=ScoreMode.MIN)
+    finally:
+        B.Pool = saved
+    hx.reach('searched')
+    want_inner = i1 if i1 > i0 else i0
+    if len(calls) != 6 or any(c[1] != want_inner for c in calls):
+        return hx.end(hx.fail("inner searches", calls=calls, exp_inner_best=want_inner))
+    for x in (0, 1, 2):
+        r = results[x]
+        if r.get("x") != x or r.get("records") != [outer_scores[x]] * 2 or r.get("score") != outer_scores[x]:
+            return hx.end(hx.fail("outer combination evaluated with the wrong model / score function / repetitions", x=x, got=r))
+    return hx.end(True)
 
 
 def repetitions(a0: int, a1: int, a2: int, b0: int, b1: int, b2: int, mi: int) -> bool:
@@ -362,9 +415,11 @@ def obligations(tier):
         X("aggregate_dispatch", aggregate_dispatch, labels=("mean", "variance", "invalid_mode"), timeout=300,
           encoded=(B._score_model_for_search,)),
         X("selection", selection, parts=[{"k": k, "procs": p} for k in ((1, 2, 3, 4) if tier == "quick" else (1, 2, 3, 4, 5, 6)) for p in (1, 2) if not (p == 2 and k == 1) and not (k == 5 and tier != "quick")] +
-          [{"k": 3, "procs": 1, "values": v} for v in ("iterator", "generator")] + [{"k": 3, "procs": 1, "values": "equal_but_distinct"}, {"k": 5, "procs": 2, "values": "equal_but_distinct"}] + [{"k": 5, "procs": 3}, {"k": 5, "procs": 2}],
+          [{"k": 3, "procs": 1, "values": v} for v in ("iterator", "generator")] + [{"k": 3, "procs": 1, "offsets": [0, 500, 250]}, {"k": 3, "procs": 2, "offsets": [7, 7, 8]}, {"k": 3, "procs": 1, "values": "equal_but_distinct"}, {"k": 5, "procs": 2, "values": "equal_but_distinct"}] + [{"k": 5, "procs": 3}, {"k": 5, "procs": 2}],
           labels=("best_last", "best_first"), labels_for=lambda p: ("best_last", "best_first") if p["k"] > 1 else ("best_first",),
           timeout=600, encoded=enc, bounds={"combinations": "1..4 (quick) / 1..6 (thorough)", "aggregates": "all ints"}),
+        X("nested_search", nested_search, parts=[{"procs": 1}, {"procs": 2}], labels=("searched",), timeout=600, encoded=enc,
+          bounds={"outer combinations": 3, "repetitions": 2, "inner search": "2 combinations, from inside the outer score function"}),
         X("step_limit", step_limit, parts=[{"procs": 1}, {"procs": 2}, {"procs": 3}], labels=("searched",), timeout=300, encoded=enc,
           bounds={"step limit": "0..4", "combinations": 3}),
         X("reuse", reuse, parts=[{"procs2": 1}, {"procs2": 2}], labels=("second_search",), timeout=600, encoded=enc + (B.ParameterList.build,)),
